@@ -266,6 +266,38 @@ theorem c05_inv_distinct (h : Header) (op : Op) (hg : noGhost h = true)
     | set id v => exact Rtp.Proofs.HeaderExtSpec.nodup_set _ id v hnd
     | del id => exact Rtp.Proofs.HeaderExtSpec.nodup_del _ id hnd
 
+/-- The acceptance table is tight: one witness per refused class, at the level of the block bytes
+    (what Marshal writes, what the parser makes of it after zero padding to a word).
+    One-byte form: id 15 is the terminator (element lost); id 0 with one byte reads as padding and
+    then a truncated element (decode error); id 200 comes back as id 8; an empty value is written
+    as 0xFF = id 15 (lost); 17 bytes are written with length nibble 0 and the rest is misparsed
+    (decode error).  Two-byte form: id 0 reads as padding (the value is then misread as an
+    element); 256 bytes are written with length byte 0 (the value comes back empty). -/
+theorem c05_table_sharp :
+    (blockOf profileOneByte [⟨15, [7]⟩] = .ok [0xF0, 7] ∧ parseOneByte [0xF0, 7, 0, 0] = .ok ([], 3)) ∧
+    (blockOf profileOneByte [⟨0, [7]⟩] = .ok [0x00, 7] ∧ parseOneByte [0x00, 7, 0, 0] = .err .shortExt) ∧
+    (blockOf profileOneByte [⟨200, [7]⟩] = .ok [0x80, 7] ∧
+      parseOneByte [0x80, 7, 0, 0] = .ok ([⟨8, [7]⟩], 0)) ∧
+    (blockOf profileOneByte [⟨3, []⟩] = .ok [0xFF] ∧ parseOneByte [0xFF, 0, 0, 0] = .ok ([], 3)) ∧
+    (blockOf profileOneByte [⟨3, List.replicate 17 9⟩] = .ok (0x30 :: List.replicate 17 9) ∧
+      parseOneByte (0x30 :: List.replicate 17 9 ++ [0, 0]) = .err .shortExt) ∧
+    (blockOf profileTwoByte [⟨0, [1]⟩] = .ok [0, 1, 1] ∧ parseTwoByte [0, 1, 1, 0] = .ok [⟨1, [0]⟩]) ∧
+    (blockOf profileTwoByte [⟨5, List.replicate 256 0⟩] = .ok (5 :: 0 :: List.replicate 256 0) ∧
+      parseTwoByte (5 :: 0 :: List.replicate 256 0) = .ok [⟨5, []⟩]) := by
+  refine ⟨⟨by decide, ?_⟩, ⟨by decide, ?_⟩, ⟨by decide, ?_⟩, ⟨by decide, ?_⟩, ⟨by decide +kernel, ?_⟩,
+    ⟨by decide, ?_⟩, ⟨by decide +kernel, ?_⟩⟩
+  · simp [parseOneByte]; decide
+  · simp [parseOneByte]; decide
+  · simp [parseOneByte]; decide
+  · simp [parseOneByte]; decide
+  · simp [parseOneByte, List.replicate]; decide
+  · simp [parseTwoByte]
+  · rw [parseTwoByte.eq_def]
+    have h5 : ((5 : UInt8) == 0) = false := by decide
+    have h0 : (0 : UInt8).toNat = 0 := rfl
+    simp only [h5, Bool.false_eq_true, if_false, h0, Nat.not_lt_zero, List.drop_zero, List.take_zero,
+      parseTwoByte_zeros]
+
 /-! ### non-vacuity -/
 
 /-- a history with an insertion, an update, a refused call (id 15 in the one-byte profile), a
